@@ -3,3 +3,5 @@ pub mod c02;
 pub mod c14;
 pub mod c17;
 pub mod c18;
+pub mod c04;
+pub mod c01;
